@@ -100,6 +100,19 @@ func DecodePureDKG(data []byte) (*puredkg.PureDKG, error) {
 	if err != nil {
 		return nil, err
 	}
+	// gob does not keep nil entries: a dealer from whom nothing has been received yet comes back
+	// with an empty commitment and a zero evaluation, which puredkg would take for messages it
+	// has already received. Neither is a value an honest dealer sends, so map them back to nil.
+	for i, commitment := range p.Commitments {
+		if commitment != nil && len(*commitment) == 0 {
+			p.Commitments[i] = nil
+		}
+	}
+	for i, eval := range p.Evals {
+		if eval != nil && eval.Sign() == 0 {
+			p.Evals[i] = nil
+		}
+	}
 	return p, nil
 }
 
